@@ -649,3 +649,26 @@ func (eff *Effect) mayHitFragment(frag string) bool {
 	}
 	return false
 }
+
+// hitsOnlyTouched: every array of this effect that matches frag is one the verified function has
+// touched itself (those are compared location by location at the return).
+func (eff *Effect) hitsOnlyTouched(frag string, heap map[string]string) bool {
+	if eff.All {
+		return false
+	}
+	for k := range eff.Keys {
+		if !(strings.Contains(k, frag) || strings.Contains(frag, strings.TrimSuffix(k, ":"))) {
+			continue
+		}
+		touched := false
+		for key := range heap {
+			if strings.HasPrefix(key, k) {
+				touched = true
+			}
+		}
+		if !touched {
+			return false
+		}
+	}
+	return true
+}
